@@ -413,7 +413,13 @@ def impl(inp):
             with warnings.catch_warnings():
                 warnings.simplefilter("ignore")
                 with zipfile.ZipFile(io.BytesIO(data)) as z:
-                    z.extractall(xdir)
+                    unext = []
+                    for i in z.infolist():
+                        try:
+                            z.extract(i, xdir)
+                        except OSError as e:       # e.g. NAME + ".lnk" longer than NAME_MAX
+                            unext.append(i.filename.rstrip("/"))
+                    side["unextractable"] = unext
                     attrs = {}
                     for i in z.infolist():
                         attrs.setdefault(i.filename.rstrip("/"), []).append(i.external_attr >> 16)
@@ -586,6 +592,9 @@ def _classes(inp, obs):
         if e == g:
             continue
         if fmt == "zip":
+            if e is not None and e[0] == "l" and g is None and (p + ".lnk") in side.get("unextractable", ()):
+                out.append(("zip-symlink", f"symlink {p!r} exported as {p + '.lnk'!r}, too long a name to extract"))
+                continue
             if e is not None and e[0] == "l" and g is None and got.get(p + ".lnk", (None,))[0] == "f":
                 out.append(("zip-symlink", f"symlink {p!r} exported as regular file {p + '.lnk'!r}"))
                 continue
@@ -797,6 +806,9 @@ def corpus():
     out.append(_mk([["l", "l", [], False, "t", 1]], "zip", "o.zip", None, None, False, False))
     out.append(_mk([["l", "l", [], False, "t", 1], ["l.lnk", "f", [[97, 1]], False, "", 1]], "zip", "o.zip", None, None, False, False))
     out.append(_mk([["x", "f", [[97, 1]], True, "", 1]], "zip", "o.zip", None, None, False, False))
+    out.append(_mk([["S" * 255, "l", [], False, "t", 1]], "zip", "o.zip", "", None, False, False))   # NAME_MAX + ".lnk"
+    out.append(_mk([["S" * 255, "l", [], False, "t", 1], ["T" * 255, "d", [], False, "", 1], ["T" * 255 + "/" + "U" * 255, "f", [[97, 2]], True, "", 2]],
+                   "tar", "o.tar", "", None, True, False))
     out.append(_mk([["l", "l", [], False, "t", 1]], "tar", "o.tar", None, None, False, True, via="cmd"))
     out.append(_mk([["f", "f", [[97, 1]], False, "", 1]], "tar", "o.tar", None, None, True, True, via="cmd"))
     out.append(_mk([[".bzrignore", "f", [[97, 1]], False, "", 1], ["f", "f", [], False, "", 1]], "tar", "o.tar", None, None,
